@@ -398,9 +398,12 @@ def scan_lexicons(source: AnyPath) -> list[ScanInfo]:
     source = Path(source).expanduser()
     infos: list[ScanInfo] = []
 
+    # comments and CDATA sections are matched first (and skipped) so that
+    # tag-like text inside them is not taken for a start tag
     lex_re = re.compile(
-        b'''<(Lexicon|LexiconExtension|Extends)\\b((?:[^>"']|"[^"]*"|'[^']*')*)>''',
-        flags=re.M
+        b'''<!--.*?-->|<!\\[CDATA\\[.*?\\]\\]>'''
+        b'''|<(Lexicon|LexiconExtension|Extends)\\b((?:[^>"']|"[^"]*"|'[^']*')*)>''',
+        flags=re.M | re.S
     )
     # match whole attributes (any name) so that text inside the quoted
     # value of one attribute is never mistaken for another attribute
@@ -411,6 +414,8 @@ def scan_lexicons(source: AnyPath) -> list[ScanInfo]:
     with open(source, 'rb') as fh:
         for m in lex_re.finditer(fh.read()):
             lextype, remainder = m.groups()
+            if lextype is None:
+                continue  # a comment or a CDATA section
             attrs = {
                 _m.group(1).decode("utf-8"):
                 _unescape_attribute(_m.group(2)[1:-1].decode("utf-8"))
